@@ -157,6 +157,13 @@ func (n *Node) DrawSpec(t *rapid.T, o GenOpts, flags map[string]bool) Spec {
 // content) generated by the owner of the current wall-clock slot: the block LIP-0014's tie break prefers when the tip
 // was received outside its own slot. ok=false when the slot owner is the tip's generator or the tip is the genesis.
 func (n *Node) BuildTieBreakSibling(salt uint32) (*blockchain.Block, bool) {
+	return n.BuildSiblingAt(salt, n.Cfg.SlotsBehind, false)
+}
+
+// BuildSiblingAt builds a valid sibling of the current tip for the given slot, signed by that slot's owner. With
+// allowSameGenerator the owner may be the tip's own generator (a double-forged block); its maxHeightGenerated then repeats
+// the tip's.
+func (n *Node) BuildSiblingAt(salt uint32, slot int, allowSameGenerator bool) (*blockchain.Block, bool) {
 	tip := n.Tip()
 	if tip.Header.Height == n.Cfg.GenesisHeight {
 		return nil, false
@@ -165,8 +172,12 @@ func (n *Node) BuildTieBreakSibling(salt uint32) (*blockchain.Block, bool) {
 	if err != nil {
 		return nil, false
 	}
-	k, err := n.GeneratorAt(tip.Header.Height, n.Cfg.SlotsBehind)
-	if err != nil || bytes.Equal(k.Addr, tip.Header.GeneratorAddress) {
+	k, err := n.GeneratorAt(tip.Header.Height, slot)
+	if err != nil {
+		return nil, false
+	}
+	same := bytes.Equal(k.Addr, tip.Header.GeneratorAddress)
+	if same && !allowSameGenerator {
 		return nil, false
 	}
 	sib := CloneBlock(tip)
@@ -181,10 +192,12 @@ func (n *Node) BuildTieBreakSibling(salt uint32) (*blockchain.Block, bool) {
 	evs := ExpectedEvents(sib.Header.Height, sib.Assets, nil)
 	sib.Header.EventRoot, _ = blockchain.CalculateEventRoot(evs)
 	sib.Header.StateRoot = NextStateRoot(parent.StateRoot, sib.Header.Height, sib.Assets, nil)
-	sib.Header.Timestamp = n.Slot.GetSlotTime(n.Cfg.SlotsBehind) + 1
+	sib.Header.Timestamp = n.Slot.GetSlotTime(slot) + 1
 	sib.Header.GeneratorAddress = k.Addr
 	// honest maxHeightGenerated of the slot owner on this chain (the tip is by somebody else)
-	sib.Header.MaxHeightGenerated = n.LastGeneratedHeight(k.Addr)
+	if !same {
+		sib.Header.MaxHeightGenerated = n.LastGeneratedHeight(k.Addr)
+	}
 	Resign(sib, k)
 	return sib, true
 }
